@@ -54,6 +54,10 @@ type c13Case struct {
 	// CopyRefs (Source ""): cues and runs point at their own Style values (same identifier, no inheritance link) instead
 	// of the objects stored in the map, as after a Merge or in a list put together by hand; definitions go by identifier
 	CopyRefs bool `json:"copy_refs,omitempty"`
+	// Dangling (Source ""): the last cue and its last run name a style, and the cue a region, that the list does not
+	// define (a list put together by hand). Such a reference resolves neither before nor after: Optimize may not invent a
+	// definition for it, and every writer must behave after Optimize as it did before
+	Dangling bool `json:"dangling,omitempty"`
 }
 
 func init() { register("c13", checkC13) }
@@ -202,6 +206,18 @@ func buildC13(c c13Case) (*astisub.Subtitles, string) {
 		it.Lines = []astisub.Line{ln}
 		s.Items = append(s.Items, it)
 	}
+	if c.Dangling && len(s.Items) > 0 {
+		it := s.Items[len(s.Items)-1]
+		if it.Style == nil {
+			it.Style = &astisub.Style{ID: "ghost"}
+		}
+		if it.Region == nil {
+			it.Region = &astisub.Region{ID: "ghostregion"}
+		}
+		if l := it.Lines[0].Items; l[len(l)-1].Style == nil {
+			l[len(l)-1].Style = &astisub.Style{ID: "ghostrun", Style: &astisub.Style{ID: "ghostparent"}}
+		}
+	}
 	return s, ""
 }
 
@@ -316,6 +332,37 @@ var allWriters = []writerFn{
 	{"vtt", func(s *astisub.Subtitles, b *bytes.Buffer) error { return s.WriteToWebVTT(b) }, func(b []byte) (*astisub.Subtitles, error) { return astisub.ReadFromWebVTT(bytes.NewReader(b)) }},
 }
 
+// writeOutcomes is writeReadAll for lists some writers or readers may refuse: the outcome per format is the error or the
+// cues read back; a panic is an outcome too (reported as such).
+func writeOutcomes(s *astisub.Subtitles) map[string]string {
+	restore := astisub.Now
+	astisub.Now = func() time.Time { return time.Date(2021, 3, 4, 0, 0, 0, 0, time.UTC) }
+	defer func() { astisub.Now = restore }()
+	out := map[string]string{}
+	for _, w := range allWriters {
+		func() {
+			defer func() {
+				if r := recover(); r != nil {
+					out[w.name] = fmt.Sprintf("PANIC: %v", r)
+				}
+			}()
+			var buf bytes.Buffer
+			if err := w.write(s, &buf); err != nil {
+				out[w.name] = "writer: " + err.Error()
+				return
+			}
+			s2, err := w.read(buf.Bytes())
+			if err != nil {
+				// the message names a line number, which moves when definitions go
+				out[w.name] = "the reader rejects what the writer produced"
+				return
+			}
+			out[w.name] = fmt.Sprintf("%+v", projCues(s2))
+		}()
+	}
+	return out
+}
+
 func writeReadAll(s *astisub.Subtitles) (map[string][]cueProj, string) {
 	restore := astisub.Now
 	astisub.Now = func() time.Time { return time.Date(2021, 3, 4, 0, 0, 0, 0, time.UTC) }
@@ -388,10 +435,13 @@ func checkC13(c c13Case) string {
 	}
 
 	var refBefore map[string][]cueProj
+	var outcomeBefore map[string]string
 	if len(items) > 0 {
 		var m string
 		// reference: the un-optimized list written and re-read the same way (on a deep-enough copy: writers are pure, C19)
-		if refBefore, m = writeReadAll(s); m != "" {
+		if c.Dangling {
+			outcomeBefore = writeOutcomes(s)
+		} else if refBefore, m = writeReadAll(s); m != "" {
 			return "before Optimize: " + m
 		}
 	}
@@ -399,7 +449,7 @@ func checkC13(c c13Case) string {
 	if c.Source == "ssa" || c.Source == "vtt" {
 		// parsed sources carry definitions the case model does not list (e.g. the WebVTT default style): traverse the object graph
 		wantS, wantR = reachOf(s)
-	} else if gs, gr := reachOf(s); !c.CopyRefs && fmt.Sprint(len(gs), len(gr)) != fmt.Sprint(len(wantS), len(wantR)) {
+	} else if gs, gr := reachOf(s); !c.CopyRefs && !c.Dangling && fmt.Sprint(len(gs), len(gr)) != fmt.Sprint(len(wantS), len(wantR)) {
 		return fmt.Sprintf("harness: model closure (%d styles, %d regions) and object-graph closure (%d, %d) disagree", len(wantS), len(wantR), len(gs), len(gr))
 	}
 	s.Optimize()
@@ -466,6 +516,15 @@ func checkC13(c c13Case) string {
 	s.Optimize()
 	if len(s.Styles) != len(expS) || len(s.Regions) != len(expR) {
 		return "a second Optimize changed the definitions again"
+	}
+	if c.Dangling {
+		after := writeOutcomes(s)
+		for _, w := range allWriters {
+			if after[w.name] != outcomeBefore[w.name] {
+				return fmt.Sprintf("%s: a list with a reference to something it does not define is handled differently after Optimize: %s; before: %s", w.name, clip(after[w.name], 400), clip(outcomeBefore[w.name], 400))
+			}
+		}
+		return ""
 	}
 	// still writable to every format, same cues as the un-optimized list written the same way
 	after, m := writeReadAll(s)
@@ -570,6 +629,7 @@ func TestC13(t *testing.T) {
 			c.Cues = append(c.Cues, cu)
 		}
 		c.RemoveStyling = rapid.IntRange(0, 4).Draw(rt, "removestyling") == 0
+		c.Dangling = c.Source == "" && nc > 0 && rapid.IntRange(0, 5).Draw(rt, "dangling") == 0
 		// labels
 		wantS, wantR := reachC13(c)
 		direct := map[string]bool{}
@@ -603,6 +663,9 @@ func TestC13(t *testing.T) {
 		ls = append(ls, "source-"+c.Source)
 		if c.CopyRefs {
 			ls = append(ls, "cues-hold-their-own-style-values")
+		}
+		if c.Dangling {
+			ls = append(ls, "reference-to-an-undefined-style-or-region")
 		}
 		if unordered && nc > 1 {
 			ls = append(ls, "unordered-cues")
